@@ -18,7 +18,7 @@ import time
 ALPHABET = ["*", "?", "a", "B", ".", "[", "]", chr(92), "(", "+", "^", "$", "|", "{", "-", " ", "\n", u"é", "!"]
 CLAIMED = [chr(c) for c in range(32, 127)] + ["\n", "\t", u"é", u"É"]
 SPECIAL = ("", ".", "..", "**")
-CHUNK = 400
+CHUNK = 2000
 
 
 def all_patterns(L):
